@@ -202,38 +202,3 @@ Proof.
 Qed.
 End S.
 
-(* ---------- the walk as a whole (process_dir of the repaired code) ---------- *)
-Theorem walk_pre c P n : post c = false -> mind c <= maxd c -> walk c P n = pre c P [] 0 n.
-Proof.
-  intros Hp Hr. unfold walk. destruct (Nat.ltb_spec (maxd c) (mind c)); [lia|].
-  now apply walk_pre_correct.
-Qed.
-Theorem walk_post c P n : post c = true -> mind c <= maxd c -> walk c P n = posto c [] 0 n.
-Proof.
-  intros Hp Hr. unfold walk. destruct (Nat.ltb_spec (maxd c) (mind c)); [lia|].
-  now apply walk_post_correct.
-Qed.
-Theorem walk_empty_range c P n : maxd c < mind c -> walk c P n = [].
-Proof. intros H. unfold walk. now destruct (Nat.ltb_spec (maxd c) (mind c)); [|lia]. Qed.
-
-(* C02 in one statement: no -prune; either order *)
-Theorem walk_every_entry_once c n : mind c <= maxd c ->
-  walk c noP n = filter (keep c) (if post c then nodes_post [] n else nodes [] n).
-Proof.
-  intros Hr. destruct (post c) eqn:Hp.
-  - rewrite walk_post by assumption. apply (posto_all c n []). cbn. lia.
-  - rewrite walk_pre by assumption. apply (pre_all c n []). cbn. lia.
-Qed.
-
-(* C03: default order with -prune; -depth ignores -prune *)
-Theorem walk_prune_exact c P n : post c = false -> mind c <= maxd c ->
-  walk c P n = filter (fun e => negb (anc_pruned c P (ev_path e))) (walk c noP n).
-Proof.
-  intros Hp Hr. rewrite !walk_pre by assumption. apply (prune_exact c P n []). reflexivity.
-Qed.
-Theorem walk_prune_noop_under_depth c P n : post c = true -> walk c P n = walk c noP n.
-Proof.
-  intros Hp. destruct (Nat.le_gt_cases (mind c) (maxd c)).
-  - now rewrite !walk_post.
-  - now rewrite !walk_empty_range.
-Qed.
